@@ -1,6 +1,6 @@
 (* C12 -- ignore patterns exclude consistently and only ever accumulate.  Statements only. *)
 From Coq Require Import Permutation.
-From MHL Require Import Model.Create Gen.Generated Proofs.BaseFacts Proofs.IgnoreFacts Proofs.CommitFacts Proofs.TreeFacts.
+From MHL Require Import Model.Commands Gen.Generated Proofs.BaseFacts Proofs.IgnoreFacts Proofs.CommitFacts Proofs.TreeFacts Proofs.FreshFacts.
 
 (* ---- accumulation (ignore.py set_patterns) ---- *)
 Theorem C12_previous_patterns_first : forall existing cli file,
@@ -60,6 +60,22 @@ Print Assumptions C12_ignored_never_reported.
 (* ... and is not reported as missing either (commands.test_for_missing_files) *)
 Theorem C12_ignored_never_missing : forall matches spec nf p, In p (missing matches spec nf) -> ignored matches spec p = false.
 Proof. intros matches spec nf p H. unfold missing in H. apply filter_In in H. destruct H as [_ H]. apply Bool.negb_true_iff. exact H. Qed.
+
+(* END TO END (flat history, any prior generations): nothing the effective patterns exclude -- neither an ignored entry nor
+   anything below an ignored folder -- gets a record in the generation create writes *)
+Theorem C12_ignored_never_recorded : forall Hb matches C cdig ser (t : node C) h0 req no_dh ip ifl,
+  load C cdig t = inl [h0] -> is_dir C t = true -> req <> [] ->
+  let spec := set_patterns (latest_patterns (lh_gens h0)) ip (pattern_file_lines ifl) in
+  let o := snd (create_folder Hb matches C cdig ser t req no_dh false ip ifl) in
+  o_outcome o <> Abort ->
+  forall h doc r, In (h, doc) (o_written o) -> In r (g_records doc) -> visible matches spec [] (r_path r).
+Proof. exact create_flat_records_visible. Qed.
+Print Assumptions C12_ignored_never_recorded.
+(* the written pattern list is stable: read back as the previous list it yields itself again *)
+Theorem C12_written_list_is_stable : forall cli file,
+  let l := set_patterns [] cli file in set_patterns [] l [] = l /\ set_patterns l [] [] = l.
+Proof. exact set_patterns_stable. Qed.
+Print Assumptions C12_written_list_is_stable.
 
 (* non-vacuity: a list as the tool writes it meets the premises; accumulation on a concrete run *)
 Example C12_defaults_nodup : NoDup default_ignore /\ default_ignore <> [].
